@@ -112,6 +112,9 @@ StatsNullCount(pg) == NullCountExact(StatPage(pg), StatHdr(pg))
 StatsSound(pg) == pg.stats.bad = "" /\ MinMaxSound(StatPage(pg), StatHdr(pg))
 StatsAbsentWhenEmpty(pg) == AbsentWhenEmpty(StatPage(pg), StatHdr(pg))
 
+\* the page chain of Layout.tla for n pending records: full pages, then the remainder
+ChainSplit(n, m) == [i \in 1..((n + m - 1) \div m) |-> IF i * m <= n THEN m ELSE n - (i - 1) * m]
+
 PageSegs(pages, w) ==
   Concat([i \in 1..Len(pages) |->
      << Seg("hdr", pages[i].hlen, w, pages[i].col, pages[i].nrecs, pages[i].nvals, pages[i].ulen),
@@ -151,6 +154,12 @@ TWrite ==
               /\ Ev.problems = <<>> =>
                    Ev.start + Ev.orphan + Sum([i \in 1..Len(pages) |-> pages[i].hlen + pages[i].clen]) = Ev.end)
        /\ batches' = IF Len(recs) > 0 THEN Append(batches, recs) ELSE batches
+       \* diagnostic only (never a verdict): the faithful model of the page chain (Layout.tla: pages of maxPage records,
+       \* then the remainder, the same split for every column) still describes what the code does
+       /\ (IF Ev.problems = <<>> /\ Len(recs) > 0 /\
+               \E c \in 1..NCols : SelectSeq([i \in 1..Len(pages) |-> IF pages[i].col = c THEN pages[i].nrecs ELSE 0], LAMBDA x : x > 0)
+                                     # ChainSplit(Len(recs), maxPage)
+            THEN PrintT(<<"DRIFT", caseId, l, "PageSplitDiffersFromLayoutModel">>) ELSE TRUE)
   /\ UNCHANGED <<caseId, schema, cols, maxPage, codecN, faultK, rowsTab>>
 
 \* ---------------------------------------------------------------- Close
